@@ -154,8 +154,8 @@ def gen_world(rng, ntorrents=None, features=()):
         for fi, f in enumerate(g.files):
             if f.pad:
                 continue
-            # prior export state
-            k = rng.below(12)
+            # prior export state: exact / shorter prefix / longer / damaged / zero-tailed partial / absent (3 in 8)
+            k = rng.below(8)
             tgt = tuple(g.target(w.export, f))
             if k == 0:
                 w.add_file(tgt, f.content)
